@@ -1,6 +1,7 @@
 import Ufo2ftModel.Drv.GeomJ
 import Ufo2ftModel.Spec.C01
 import Ufo2ftModel.Spec.Good
+import Ufo2ftModel.Model.C01Codec
 namespace Ufo2ft.Drv.C01
 open Lean Ufo2ft Ufo2ft.Drv Ufo2ft.C01
 
@@ -20,15 +21,40 @@ def asOp (j : Json) : R Op := do
   | [_] => return .closePath
   | _ => throw "op"
 
+def t2opName : T2Op → String
+  | .rmoveto => "rmoveto" | .rlineto => "rlineto" | .rrcurveto => "rrcurveto" | .endchar => "endchar"
+
+/-- a raw program token: numbers as exact rationals, operators by their fontTools names -/
+def tokJ : Tok → Json
+  | .num v => ratJ v
+  | .op o => Json.str (t2opName o)
+
+/-- an observed token; an operator the unspecialised encoder never emits gives `none` (the program then simply differs) -/
+def asTok (j : Json) : R (Option Tok) := do
+  let s ← asStr j
+  match s with
+  | "rmoveto" => return some (.op .rmoveto)
+  | "rlineto" => return some (.op .rlineto)
+  | "rrcurveto" => return some (.op .rrcurveto)
+  | "endchar" => return some (.op .endchar)
+  | _ => match (asRat j) with
+    | .ok v => return some (.num v)
+    | .error _ => return none
+
 def errJ : C01.Err → Json
   | .unsupported => "Unsupported" | .valueError => "ValueError" | .geom e => gerrJ e
 
-/-- op "font": in = {tol, glyphs}; obs = {err} | {glyphs: [[name, ops, advance]...]} -/
+/-- op "font": in = {tol, glyphs, skip, cff, auto, infoD, infoN}; obs = {err} | {glyphs: [[name, ops, advance, program]...]}.
+    The model's entry per glyph: [name, outline, advance, raw charstring program (`cffProgram`)]; `dec` = what the Lean
+    Type 2 interpreter (`exec`) makes of each OBSERVED program: [name, outline | null, advance recovered from the width operand | null] -/
 def font (req : Json) : R Reply := do
   let i ← field req "in"
   let tol ← asRat (← field i "tol")
   let gs ← asGlyphSet (← field i "glyphs")
   let skip ← asList asStr (← field i "skip")
+  let ver : C12.Ver := if (← asInt (← field i "cff")) == 2 then .v2 else .v1
+  let auto ← asPair asInt asInt (← field i "auto")
+  let dn := C12.defNom (← asOpt asRat (← field i "infoD")) (← asOpt asRat (← field i "infoN")) auto
   let obs ← field req "obs"
   let oerr ← asOpt asStr (← field obs "err")
   -- model
@@ -39,30 +65,47 @@ def font (req : Json) : R Reply := do
   if adv.any (fun a => match a with | .error _ => true | .ok _ => false) then
     return { model := Json.mkObj [("err", "ValueError")], holds := oerr == some "ValueError" }
   let outs := pre.map (fun e => (e.1, cffOutline tol pre e.1, advance e.2))
+  let progs := pre.map (fun e => (e.1, cffProgram ver tol dn.1 dn.2 pre e.1))
   match outs.find? (fun o => match o.2.1 with | .error _ => true | .ok _ => false) with
   | some (_, .error e, _) =>
     return { model := Json.mkObj [("err", errJ e)], holds := oerr.isSome }
   | _ =>
-    let model := Json.mkObj [("err", Json.null), ("glyphs", listJ (fun (o : String × Except C01.Err (List Op) × Except C01.Err Int) =>
+    let glyphsJ := listJ (fun (o : String × Except C01.Err (List Op) × Except C01.Err Int) =>
       Json.arr #[Json.str o.1, (match o.2.1 with | .ok ops => listJ opJ ops | .error _ => Json.null),
-                 (match o.2.2 with | .ok a => intJ a | .error _ => Json.null)]) outs)]
+                 (match o.2.2 with | .ok a => intJ a | .error _ => Json.null),
+                 (match alookup o.1 progs with | some (.ok t) => listJ tokJ t | _ => Json.null)]) outs
     match oerr with
-    | some _ => return { model, holds := false }
+    | some _ => return { model := Json.mkObj [("err", Json.null), ("glyphs", glyphsJ)], holds := false }
     | none =>
       let og ← asArr (← field obs "glyphs")
       let mut bad : List String := []
+      let mut dec : List Json := []
       for o in og do
         match ← asArr o with
-        | [n, ops, a] =>
+        | [n, ops, a, prog] =>
           let n ← asStr n
           let ops ← asList asOp ops
           let a ← asInt a
+          let toks ← asList asTok prog
+          let run := if toks.all Option.isSome then exec (toks.filterMap id) else none
+          -- the advance a CFF 1 reader recovers from the charstring (popallWidth: nominalWidthX + args[0], else defaultWidthX)
+          let wdec : Option Q := match run, ver with
+            | some (_, some w), .v1 => some ((dn.2 : Q) + w)
+            | some (_, none), .v1 => some (dn.1 : Q)
+            | _, _ => none
+          dec := dec ++ [Json.arr #[Json.str n, (match run with | some r => listJ opJ r.1 | none => Json.null), optJ ratJ wdec]]
+          -- ... is an advance of the font too: it must be the rounded source width like hmtx's
+          match wdec, gs.get? n with
+          | some w, some g => if w != (otRound g.width : Q) && !skip.contains n then bad := bad ++ [n ++ ":charstring-width"]
+          | _, _ => pure ()
           match gs.get? n with
           | some g => if skip.contains n || !(holdsOutline skip.isEmpty tol gs g ops && holdsAdvance g a) then bad := bad ++ [n]
           | none => if n != ".notdef" then bad := bad ++ [n]
         | _ => throw "glyph entry"
       let names := og.filterMap (fun o => match o.getArr? with | .ok a => (a[0]?.bind (fun j => j.getStr?.toOption)) | _ => none)
       let missing := gs.names.filter (fun n => !names.contains n && !skip.contains n)
+      let model := Json.mkObj [("err", Json.null), ("glyphs", glyphsJ), ("dec", Json.arr dec.toArray),
+        ("dn", Json.arr #[intJ dn.1, intJ dn.2])]
       return { model, holds := bad.isEmpty && missing.isEmpty, info := strsJ (bad ++ missing),
                hyp := Json.bool (goodCert gs (depthCert gs) && skip.isEmpty) }
 
